@@ -21,7 +21,7 @@ RULE = ("seeded batches of 1..40 jobs (distinct generated pipelines and payloads
         "1..4 workers x enqueue gaps x failing job at a seeded batch position x slow jobs x late workers x one of 9 schedule "
         "strategies (fair ones only: random walk p in {.02,.1,.3,.6}, bursty, priority-based with periodic re-draw). distinct_nontrivial = distinct context-switch-trace hashes among runs in which every job was picked up by "
         "a worker."
-        " Further seeded dimensions: 0-3 failing jobs (often adjacent, two-argument exception class), fire-and-forget jobs, YAML-path jobs incl. a rewritten shared path, a follow-up job enqueued from a done-callback, worker churn (a worker stopped mid-batch and replaced), a bounded pool executor (1-2 pool tasks).")
+        " Further seeded dimensions: 0-3 failing jobs (often adjacent, two-argument exception class), fire-and-forget jobs, YAML-path jobs incl. a rewritten shared path, a follow-up job enqueued from a done-callback, worker churn (a worker stopped mid-batch and replaced), a bounded pool executor (1-2 pool tasks). Seventh round: protocol-like keys (error/status/result/metadata) in job contexts.")
 REAL_COMPONENTS = ["QueueSemantivaOrchestrator.enqueue/run_forever", "worker_loop", "InMemorySemantivaTransport",
                    "Pipeline + LocalSemantivaOrchestrator + SequentialSemantivaExecutor inside each job"]
 STUB_COMPONENTS = ["queue.Queue / time.sleep / threading primitives seen by the job-queue modules (SimQueue, virtual sleep, SimLock)",
